@@ -51,6 +51,23 @@ CHECKS = {
              "tokens x contexts); exhaustive over option sets.",
         technique="TLA+ declarative token classifier model-checked with TLC for non-interference over 1536 option sets; expected outcomes replayed into the parser; results validated by TLC",
     ),
+    "C09": dict(
+        category="translation_validation",
+        text="TLC enumerates programs of the documented sexp! syntax from lexeme pools (every atom form, lists, dotted lists with "
+             "22 kinds of tail, vectors, every atom next to every probe in both orders, nesting to depth 4) and checks on the "
+             "specification that the reference reader reads Render(p) as the documented value ValueOf(p), and that the macro's "
+             "token-level grammar (MacroRead over Tokenize, a rule-by-rule model of lexpr-macros/src/parser.rs) gives ValueOf(p) "
+             "except where the source separates a lone - or : from what follows (the token stream cannot see it). Every program, "
+             "plus seeded random trees of depth <= 5, is written into a generated crate, compiled against /repo and run; the "
+             "verdict is the property's own relation sexp!(p) == from_slice(Render(p)); a program rustc rejects is a violation. "
+             "Each compiled program's source, text and verdict are validated by TLC (C09Trace), which also recognises the "
+             "recorded token-fusion finding by the value the as-built grammar predicts.",
+        design_ref="DESIGN.md section 6 (C09)",
+        note="Trusted: TLC, rustc, the rendering rule (lexemes separated by one space, minus attached to its number), and the "
+             "reference reader for the meaning of the text. Each point costs a compilation, so coverage is the enumerated pools "
+             "plus the seeded random programs; not exhaustive over depth 5.",
+        technique="TLA+ model of the macro's token grammar and of the documented values model-checked with TLC; TLC-generated and random programs compiled in a generated crate and compared with the parser; results validated by TLC",
+    ),
     "C13": dict(
         category="model_checking",
         text="TLC checks on the reference reader/printer that every accepted text - every word up to a bounded length over an "
@@ -280,7 +297,7 @@ def main():
         pass
     m = {
         "version": 1,
-        "setup_cmd": "cd /verif/harness && cargo build --release --offline && cd /verif/harness-nofast && cargo build --release --offline",
+        "setup_cmd": "cd /verif/harness && cargo build --release --offline && cd /verif/harness-nofast && cargo build --release --offline && cd /verif/harness-macro && cargo build --offline",
         "hooks": {
             "guard": "--cfg lexpr_verif",
             "enable": "harness/.cargo/config.toml sets rustflags = [\"--cfg\", \"lexpr_verif\"]; the harness has path dependencies "
